@@ -105,7 +105,8 @@ SPECIAL = [" ", "-", "_", ".", "~", "+", "&", ";", "[", "]", "é",
            "日"]
 STYLES = ["raw", "rawdot", "rawup", "quoted", "quoteddot", "absurl",
           "abspath", "abspathq"]
-ENTRIES = ["abs", "rel", "url", "url1", "fobj-abs", "fobj-rel"]
+ENTRIES = ["abs", "rel", "url", "url1", "fobj-abs", "fobj-rel",
+           "fobj-bytes"]
 CWD_KINDS = ["T", "top", "deep", "W", "O", "/"]
 
 
@@ -462,7 +463,7 @@ class GoneCwd(Cwd):
         os.rmdir(self.d)
 
 
-ABSOLUTE_ENTRIES = ["abs", "url", "url1", "fobj-abs"]
+ABSOLUTE_ENTRIES = ["abs", "url", "url1", "fobj-abs", "fobj-bytes"]
 
 
 class Monitor:
@@ -585,7 +586,7 @@ def top_spelling(lay, entry, path, cwd):
         return "file://" + pathname2url(path)
     if entry == "url1":
         return "file:" + pathname2url(path)
-    if entry == "fobj-abs":
+    if entry in ("fobj-abs", "fobj-bytes"):
         return path
     if entry == "fobj-rel":
         return rel
@@ -598,7 +599,9 @@ def do_load(ZConfig, what, entry, spelling, schema=None):
     try:
         try:
             if entry.startswith("fobj"):
-                f = open(spelling, encoding="utf-8")
+                # ("fobj-bytes": opened by a bytes path, the name is bytes)
+                f = open(os.fsencode(spelling) if entry == "fobj-bytes"
+                         else spelling, encoding="utf-8")
                 if what == "schema":
                     v = ZConfig.loadSchemaFile(f)
                 else:
@@ -623,7 +626,8 @@ def loader_load(ZConfig, loader, what, entry, spelling):
     try:
         try:
             if entry.startswith("fobj"):
-                f = open(spelling, encoding="utf-8")
+                f = open(os.fsencode(spelling) if entry == "fobj-bytes"
+                         else spelling, encoding="utf-8")
                 v = loader.loadFile(f)
             else:
                 v = loader.loadURL(spelling)
